@@ -965,6 +965,19 @@ func (e *env) step() {
 			}
 		}
 	}
+	// C03 (ill-formed passphrases) / C02 (the running instance behaves as the reopened one): an EMPTY passphrase is refused
+	// and refusing it changes nothing - the current passphrase still does what it did
+	if e.unlocked && e.priv >= 0 && len(e.ksIDs()) > 0 && !e.faulty && r.Intn(8) == 0 {
+		e.h.Res.OracleEvals++
+		if err := e.kmc.Unlock([]byte{}); err == nil {
+			e.fail("C03", "wrong-pass-accepted", "Unlock on the open wallet returned success for the empty passphrase")
+		}
+		ids := e.ksIDs()
+		if _, err := e.kmc.ExportKeystore(e.nameOf[ids[0]], []byte(e.passes[e.priv])); err != nil {
+			e.fail("C03", "current-passphrase-refused-after-empty-passphrase", "after Unlock with an empty passphrase was refused on the open wallet, ExportKeystore with the current private passphrase #%d fails: %v", e.priv, err)
+			e.fail("C02", "current-passphrase-refused-after-empty-passphrase", "after Unlock with an empty passphrase was refused on the open wallet, ExportKeystore with the current private passphrase #%d fails in the running instance (a reopened one accepts it): %v", e.priv, err)
+		}
+	}
 	id, has := e.anyID()
 	x := r.Intn(100)
 	switch {
